@@ -252,7 +252,7 @@ def _gen_failing(rng, env, stats):
         return {"kind": "parse", "text": " ".join(pre + [bad]), "cut": None, "redef": False, "infn": False}
     if kind == "compile":
         u = rng.choice(UNDEF)
-        form = rng.weighted([(30, "let"), (15, "use"), (25, "fnbody"), (10, "nested"), (10, "assign"), (10, "call")])
+        form = rng.weighted([(30, "let"), (15, "use"), (25, "fnbody"), (10, "nested"), (10, "assign"), (10, "call"), (24, "blockdecl")])
         infn = False
         if form == "let":
             bad = "let %s = %s;" % (rng.choice(VARS), u)
@@ -264,6 +264,11 @@ def _gen_failing(rng, env, stats):
         elif form == "nested":
             bad = "let %s = fn(x) { fn(y) { x + y + %s } };" % (rng.choice(FUNS), u)
             infn = True
+        elif form == "blockdecl":
+            # the only declaration of the rejected line sits inside a block
+            ints0 = [n for n, kk in env.items() if kk == "int"] or ["a"]
+            bad = "if true { let %s = 100; puts(%s + %s); } else { };" % (rng.choice(ints0), ints0[0], u)
+            pre, pre_eff = [], []
         elif form == "assign":
             bad = "%s = 5;" % u
         else:
@@ -340,6 +345,8 @@ def generate(rng, tier, idx):
             _apply(env, eff)
         if rng.chance(20):
             stmts.append(_iexpr(rng, env))   # bare expression: the REPL echoes its value
+        elif rng.chance(10):
+            stmts.append(rng.choice([_bexpr(rng, env), "2 > 100", "1 == 1", "!true"]))   # ... also when it is false
         text = " ".join(stmts)
         ln = {"kind": "ok", "text": text, "cut": None}
         if rng.chance(12) and "{ " in text:
